@@ -2,7 +2,7 @@
    insertNode call sequence (Router/Insert.v, Build.v) and dispatches a request on it. *)
 From Coq Require Import List ZArith Bool Ascii String Arith NArith.
 From Echo Require Import Base.Sx.
-From Echo.Router Require Import Spec2 Fuel Refine Insert InsProof Walk Live Toks Build Sound Reverse Top Tail.
+From Echo.Router Require Import Spec2 Fuel Refine Insert InsProof Walk Live Toks Build Sound Reverse Top Tail Host.
 Import ListNotations.
 Open Scope char_scope.
 Open Scope nat_scope.
@@ -72,12 +72,8 @@ Definition route_sx (x : sx) : sx :=
   let m := as_str (nth_sx 1 x) in
   enc_out rs m (route_request rs m (as_str (nth_sx 2 x))).
 
-(* input with hosts: ((host ((method pattern) ...)) ...) request-host method path; host "" = default router *)
-Fixpoint pick_host (hs : list sx) (h : Spec2.str) (dflt : list sx) : list sx :=
-  match hs with
-  | [] => dflt
-  | x :: r => if Spec2.str_eqb (as_str (nth_sx 0 x)) h && negb (Spec2.str_eqb h []) then as_list (nth_sx 1 x) else pick_host r h dflt
-  end.
+(* input with hosts: ((host ((method pattern) ...)) ...) request-host method path; host "" = default router.
+   The selection is the model's [find_router] (Router/Host.v). *)
 Fixpoint default_table (hs : list sx) : list sx :=
   match hs with
   | [] => []
@@ -85,8 +81,12 @@ Fixpoint default_table (hs : list sx) : list sx :=
   end.
 Definition host_sx (x : sx) : sx :=
   let hs := as_list (nth_sx 0 x) in
-  let tbl := pick_host hs (as_str (nth_sx 1 x)) (default_table hs) in
-  route_sx (SL [SL tbl; nth_sx 2 x; nth_sx 3 x]).
+  let named := map (fun e => (as_str (nth_sx 0 e), mk_table 0 (as_list (nth_sx 1 e))))
+                   (filter (fun e => negb (Spec2.str_eqb (as_str (nth_sx 0 e)) [])) hs) in
+  let dflt := mk_table 0 (default_table hs) in
+  let h := as_str (nth_sx 1 x) in
+  let m := as_str (nth_sx 2 x) in
+  enc_out (find_router named dflt h) m (host_request named dflt h m (as_str (nth_sx 3 x))).
 
 (* Router.Reverse: input (pattern (value ...)) *)
 Definition reverse_sx (x : sx) : sx :=
